@@ -28,7 +28,7 @@ from vf.modelsql import DB, Ctl, FakeDatetime, FakeSqlite
 from vf.stubs import FakeAsyncio, FakeTransport, MiniLoop
 
 
-def _mkcert(kind, cn):
+def _mkcert(kind, cn, start=None, days=365):
     if kind == "ec":
         key = ec.generate_private_key(ec.SECP256R1())
         alg = hashes.SHA256()
@@ -39,15 +39,17 @@ def _mkcert(kind, cn):
         key = rsa.generate_private_key(public_exponent=65537, key_size=2048)
         alg = hashes.SHA256()
     name = x509.Name([x509.NameAttribute(NameOID.COMMON_NAME, cn)])
-    now = _dt.datetime(2026, 1, 1, tzinfo=_dt.timezone.utc)
+    now = start or _dt.datetime(2026, 1, 1, tzinfo=_dt.timezone.utc)
     cert = (x509.CertificateBuilder().subject_name(name).issuer_name(name).public_key(key.public_key())
-            .serial_number(x509.random_serial_number()).not_valid_before(now).not_valid_after(now + _dt.timedelta(days=365))
+            .serial_number(x509.random_serial_number()).not_valid_before(now).not_valid_after(now + _dt.timedelta(days=days))
             .sign(key, alg))
     return cert
 
 
 # generated once per process, outside the symbolic engine
-CERTS = [_mkcert("ec", "a"), _mkcert("ed", "b"), _mkcert("rsa", "c")]
+CERTS = [_mkcert("ec", "a"), _mkcert("ed", "b"), _mkcert("rsa", "c"),
+         _mkcert("ec", "expired", _dt.datetime(2001, 1, 1, tzinfo=_dt.timezone.utc), 30),       # long expired
+         _mkcert("ec", "future", _dt.datetime(2090, 1, 1, tzinfo=_dt.timezone.utc), 30)]        # not yet valid
 DERS = [c.public_bytes(serialization.Encoding.DER) for c in CERTS]
 FPS = [get_certificate_fingerprint(c) for c in CERTS]
 BAD_DER = b"\x30\x03\x02\x01\x01"        # DER that the X.509 parser rejects (stand-in for odd encodings)
